@@ -126,6 +126,8 @@ type Sched struct {
 	Choices  []int32 `json:"choices,omitempty"` // explicit (task id) prefix; -1 = use strategy
 	Bursts   []int32 `json:"bursts,omitempty"`
 	PCTDepth int     `json:"pct_depth,omitempty"`
+	LateProb float64 `json:"late_prob,omitempty"` // probability that a goroutine the library starts is not scheduled for a while
+	LateMax  int     `json:"late_max,omitempty"`  // ... for at most this many scheduler decisions (unless nothing else can run)
 	Collide  bool    `json:"collide,omitempty"`
 }
 
